@@ -180,3 +180,17 @@ mutant("c04-deep-copying-scope-clone",
        [("src/eval/scope.rs", "#[derive(Clone, Debug)]\npub struct ScopeStack(Vec<Arc<Mutex<Scope>>>);",
          "#[derive(Debug)]\npub struct ScopeStack(Vec<Arc<Mutex<Scope>>>);\n\nimpl Clone for ScopeStack {\n    fn clone(&self) -> Self {\n        ScopeStack(self.0.iter().map(|s| Arc::new(Mutex::new(s.try_lock().unwrap().clone()))).collect())\n    }\n}")],
        [("C04", "R04.2")], note="closures capture by value")
+
+# ---- C14 ---------------------------------------------------------------------
+mutant("c14-params-assigned-not-declared",
+       [(E, "        bind::bind(context, &mut new_scopes, &lhs, rhs, BindType::Declaration)\n            .context(BindFailed)?;",
+            "        let bt = if new_scopes.get(&\"this\".to_string()).is_some() { BindType::Assignment } else { BindType::Declaration };\n        bind::bind(context, &mut new_scopes, &lhs, rhs, bt)\n            .context(BindFailed)?;")],
+       [("C14", "R14.4")])
+mutant("c14-this-keeps-previous-source",
+       [(E, "                    Ok(value::new_val_ref_with_source(v, source_val.v.clone()))",
+            "                    Ok(value::new_val_ref_with_source(\n                        v,\n                        source_val.source.clone().unwrap_or(source_val.v.clone()),\n                    ))")],
+       [("C14", "R14.2")], note="o.inner[\"f\"]() gets `this` = o instead of o.inner")
+mutant("c14-callee-evaluated-twice-for-builtins",
+       [(E, "    let (func_name, v) =\n        {\n            let SourcedValue{v, source} = func_val;",
+            "    let func_val =\n        if let Value::BuiltinFunc{..} = func_val.v {\n            eval_expr(context, scopes, func)\n                .context(EvalCallFuncFailed)?\n        } else {\n            func_val\n        };\n\n    let (func_name, v) =\n        {\n            let SourcedValue{v, source} = func_val;")],
+       [("C14", "R14.1")])
